@@ -827,30 +827,70 @@ def driver_obligations(P):
                     out.append(I.call(f, [t], {}, node, {}))
             return Tup(out, "list")
 
-        def forbidden(name):
+        def submit(I, args, kwargs, node):
+            # Executor.submit(f, *args): the call happens in a worker; the Future carries its value
+            pool_calls.append(("submit", args[0] if args else None))
+            if not args:
+                return Unknown("submit without a function")
+            return Opaque("future", {"value": I.call(args[0], list(args[1:]), dict(kwargs), node, {})})
+
+        def future_result(I, args, kwargs, node):
+            f = I.cur_callee.bound
+            if isinstance(f, Opaque) and f.name == "future":
+                return f.attrs["value"]
+            return Unknown("result of %r" % (f,))
+
+        def vsubst(v, mp):
+            if isinstance(v, Expr):
+                return v.subs(mp)
+            if isinstance(v, Opaque):
+                return Opaque(v.name, {k: (x if k == "__class__" else vsubst(x, mp)) for k, x in v.attrs.items()})
+            if isinstance(v, Tup):
+                return Tup([(vsubst(x[0], mp), vsubst(x[1], mp)) if isinstance(x, tuple) else vsubst(x, mp) for x in v.items], v.kind)
+            return v
+
+        def completion_order(name):
             def stub(I, args, kwargs, node):
+                # the order in which workers finish is not a function of the inputs: the k-th future handed out is the one submitted
+                # at position perm(k), for a permutation nothing is known about
                 pool_calls.append((name, None))
-                return Unknown(name)
+                fs = args[0] if args else None
+                if name == "as_completed" and isinstance(fs, Tup) and len(fs.items) == 1 and isinstance(fs.items[0], GenList):
+                    g = fs.items[0]
+                    perm = alg.fn("completion_order@%d" % node.lineno, alg.atom_expr(g.ivar), integer=True)
+                    return Tup([GenList(vsubst(g.elem, {g.ivar: perm}), g.ivar, g.rng)], "list")
+                if name == "as_completed" and isinstance(fs, Tup) and fs.kind in ("list", "tuple") and not any(isinstance(x, GenList) for x in fs.items):
+                    if len(fs.items) < 2:
+                        return Tup(list(fs.items), "list")
+                    # two of the possible schedules are followed: submission order and its reverse
+                    if I.decide("the workers finish in submission order (as_completed at line %d)" % node.lineno):
+                        return Tup(list(fs.items), "list")
+                    return Tup(list(reversed(fs.items)), "list")
+                return Unknown("futures in completion order (%s)" % name)
             return stub
 
         stubs = {"bldfm.interface.run_bldfm_single": _single_stub(log), "concurrent.futures.ProcessPoolExecutor": executor,
-                 "concurrent.futures.ThreadPoolExecutor": executor, "pool.map": pool_map, "pool.submit": forbidden("submit"),
-                 "concurrent.futures.as_completed": forbidden("as_completed"), "concurrent.futures.wait": forbidden("wait")}
+                 "concurrent.futures.ThreadPoolExecutor": executor, "pool.map": pool_map, "pool.submit": submit, "future.result": future_result,
+                 "concurrent.futures.as_completed": completion_order("as_completed"), "concurrent.futures.wait": completion_order("wait")}
         res = CM.run_paths(P, "bldfm.interface", "run_bldfm_parallel", [cfg], {"max_workers": alg.sym("workers", pos=True, integer=True), "parallel_over": strategy}, stubs=stubs)
         rets = [r for r in res if r.kind == "return"]
-        okp = len(res) == 1 and len(rets) == 1 and isinstance(rets[0].value, Tup) and rets[0].value.kind == "dict"
+        okp = bool(rets) and len(res) == len(rets) and all(isinstance(r.value, Tup) and r.value.kind == "dict" for r in rets)
         obs.extend(step_state_obligations(res, site_p, "parallel over %s" % strategy))
-        obs.append(req_ob("R-ORDERED", site_p, "strategy %r returns a mapping on a single path" % strategy, okp, detail=str([(r.kind, r.raise_desc) for r in res])[:200]))
-        only_map = bool(pool_calls) and all(k == "map" for k, _ in pool_calls)
-        obs.append(req_ob("R-ORDERED", site_p, "strategy %r distributes work only through Executor.map (results in task order whatever the completion order)" % strategy, only_map, detail=str([k for k, _ in pool_calls])))
-        if okp:
-            items = rets[0].value.items
+        obs.append(req_ob("R-ORDERED", site_p, "strategy %r returns a mapping on every path (one per schedule followed)" % strategy, okp, detail=str([(r.kind, r.raise_desc) for r in res])[:200]))
+        used_pool = any(k in ("map", "submit") for k, _ in pool_calls)
+        obs.append(req_ob("R-ORDERED", site_p, "strategy %r distributes work through the executor (Executor.map keeps task order, a Future carries its own task's result; completion order is an unknown sequence)" % strategy, used_pool, detail=str(sorted({k for k, _ in pool_calls}))))
+        for ret in (rets if okp else []):
+            sched = "; ".join("%s=%s" % (d, c) for d, c in ret.path if "finish in submission order" in d)
+            sched = " [%s]" % sched if sched else ""
+            items = ret.value.items
             okk = len(items) == len(towers) and all(pw.same_value(k, t.attrs["name"]) for (k, _), t in zip(items, towers))
-            obs.append(req_ob("R-ORDERED", site_p, "strategy %r: results keyed by tower name in configuration order" % strategy, okk, detail=repr([k for k, _ in items])[:200]))
+            if not okk and has_unknown(ret.value):
+                okk = None
+            obs.append(req_ob("R-ORDERED", site_p, "strategy %r: results keyed by tower name in configuration order" % strategy, okk, detail=repr([k for k, _ in items])[:200] + sched))
             for (k, v), t in zip(items, towers):
                 ok, why = _unk(_expect_series(t, nsteps, None, "None"), v)
-                obs.append(req_ob("R-ORDERED", site_p, "strategy %r: the entry of a tower is the time-ordered list of its own single runs" % strategy, ok, detail=why, key={"strategy": strategy}))
-            mis = [e for e in rets[0].events if e[0] == "misaligned-slice"]
+                obs.append(req_ob("R-ORDERED", site_p, "strategy %r: the entry of a tower is the time-ordered list of its own single runs" % strategy, ok, detail=(why or "") + sched if why else None, key={"strategy": strategy}))
+            mis = [e for e in ret.events if e[0] == "misaligned-slice"]
             obs.append(req_ob("R-ORDERED", site_p, "strategy %r: flat results are re-assembled at the task boundaries" % strategy, not mis, detail=str(mis[:1]) if mis else None))
         # R-RESET: before each worker's solve the thread count is one and the FFT singleton is dropped
         for b, seq, events, calls in log:
